@@ -457,7 +457,32 @@ def judge(ctx, case, impl, outs):
         ctx.fail(case, "no-unexpected-exception", impl["crash"])
         ctx.record(case, False)
         return
+    bad = nonfinite(impl)
+    if bad:
+        # NaN/inf in evo's output for finite input is a failure of the law concerned, never a harness crash
+        ctx.fail(case, "finite-output", f"non-finite value in evo's output for finite input: {bad}")
+        ctx.record(case, False)
+        return
     globals()["judge_" + k](ctx, case, impl, outs)
+
+
+def nonfinite(x, path=""):
+    """first non-finite float in evo's outputs (the raw `scale` of non-members may legitimately be nan)"""
+    if isinstance(x, dict):
+        for k, v in x.items():
+            if k == "scale":
+                continue
+            r = nonfinite(v, f"{path}.{k}")
+            if r:
+                return r
+    elif isinstance(x, (list, tuple)):
+        for i, v in enumerate(x):
+            r = nonfinite(v, f"{path}[{i}]")
+            if r:
+                return r
+    elif isinstance(x, float) and not math.isfinite(x):
+        return f"{path} = {x}"
+    return None
 
 
 def judge_hatvee(ctx, case, impl, outs):
@@ -539,7 +564,7 @@ def judge_sim3(ctx, case, impl, outs):
     m_sim = parse(outs[0])
     cmp_pose(ctx, case, "sim3", impl["sim3"], m_sim, 0, 0, exact)
     sc = impl["scale"]
-    if len(outs) < 5:
+    if len(outs) < 5 or not math.isfinite(sc):
         ctx.fail(case, "sim3-scale-recovered", f"sim3_scale returned {sc}")
         ctx.record(case, True)
         return
